@@ -1434,6 +1434,16 @@ func (self *Fork) expandForkPart(must bool,
 			return nil, nil
 		}
 	}
+	if other := self.lockstepPart(i, split); other != nil {
+		// This call iterates in lockstep with a call for which this fork
+		// already has an index: it is the same index, not another
+		// dimension.
+		part = self.ownPart(i, part)
+		part.Id = other.Id
+		part.Range = other.Range
+		self.updateId(self.forkId)
+		return nil, nil
+	}
 	exp, err := split.BindingPath("", self.forkId.SourceIndexMap(),
 		self.node.top.types)
 	if err != nil {
@@ -1486,6 +1496,55 @@ func forksOverCall(exp syntax.Exp, call *syntax.CallStm) bool {
 		}
 	}
 	return false
+}
+
+// lockstepPart returns a determined part of this fork's id, other than part
+// i, whose call is the one that the call of part i is mapped over the merged
+// output of (`map call B(x = split A.out)` after `map call A(...)`), or nil.
+//
+// A node inside B which also depends on A directly (for example through a
+// `disabled` modifier which was simplified to A's output) has both calls
+// among its fork roots, but they are one dimension, not two.
+func (self *Fork) lockstepPart(i int, split *syntax.SplitExp) *ForkSourcePart {
+	if split == nil {
+		return nil
+	}
+	set, ok := split.Source.(*syntax.MapCallSet)
+	if !ok {
+		return nil
+	}
+	for k, other := range self.forkId {
+		if k == i || other == nil || other.Split == nil ||
+			other.Id.IndexSource() != nil {
+			continue
+		}
+		if other.Split.Source == split.Source {
+			return other
+		}
+		var fqid string
+		for _, root := range self.node.call.ForkRoots() {
+			if root.Call() == other.Split.Call {
+				fqid = root.GetFqid()
+				break
+			}
+		}
+		if fqid == "" {
+			continue
+		}
+		for _, src := range set.Sources {
+			switch src := src.(type) {
+			case *syntax.BoundReference:
+				if src.Exp != nil && src.Exp.Id == fqid && src.Exp.OutputId == "" {
+					return other
+				}
+			case *syntax.RefExp:
+				if src.Id == fqid && src.OutputId == "" {
+					return other
+				}
+			}
+		}
+	}
+	return nil
 }
 
 // isDisabledSource evaluates the condition of a conditionally disabled
